@@ -123,8 +123,9 @@ _key = st.one_of(tim.option_name, tim.ini_path.filter(lambda p: "=" not in p and
                  st.sampled_from(["x86_64/os/images/boot.iso", "Server/x86_64/os/repodata/repomd.xml", "images/boot.iso", "os/images/boot.iso", "a/os/b",
                                   "repodata/repomd.xml", "LiveOS/squashfs.img"])).map(tim._norm_rel).filter(
     lambda p: p and p[0] not in "#;[/" and p.strip() == p)
+_raw_key = st.sampled_from(["./images/boot.iso", "images//boot.iso", "a/../b", "images/./boot.iso", "x/../images/boot.iso", "repodata/", "a/b/.."])
 section_strategy = st.fixed_dictionaries({
-    "entries": st.lists(st.tuples(_key, _entry), min_size=1, max_size=6, unique_by=lambda t: t[0]),
+    "entries": st.lists(st.tuples(st.one_of(_key, _key, _key, _raw_key), _entry), min_size=1, max_size=6, unique_by=lambda t: t[0]),
     "format": st.sampled_from(["current", "current", "pre-productmd"]),
 })
 
